@@ -28,6 +28,9 @@ pub struct SysCfg {
     pub divrem: bool,
     /// allow init expressions that read inputs (the initial state depends on the first input)
     pub init_may_read_inputs: bool,
+    /// bias towards systems with deep counterexamples / large diameters (model checking properties):
+    /// literal inits, counter-like next functions, bad states of the shape `state == value`
+    pub mc_bias: bool,
 }
 
 impl Default for SysCfg {
@@ -46,6 +49,7 @@ impl Default for SysCfg {
             max_constraints: 2,
             divrem: false,
             init_may_read_inputs: true,
+            mc_bias: false,
         }
     }
 }
@@ -83,7 +87,7 @@ pub fn gen_system(t: &mut Tape, cfg: &SysCfg) -> SysCase {
     let mut g = ExprGen::new(ecfg);
 
     // ---- state and input types under the bit budgets
-    let n_states = t.below(cfg.max_states + 1);
+    let n_states = if cfg.mc_bias { 1 + t.below(cfg.max_states.max(1)) } else { t.below(cfg.max_states + 1) };
     let mut state_types: Vec<Type> = vec![];
     let mut bits_left = cfg.max_state_bits;
     for k in 0..n_states {
@@ -100,6 +104,9 @@ pub fn gen_system(t: &mut Tape, cfg: &SysCfg) -> SysCase {
             }
         } else if cfg.wide_states && k == 0 && t.chance(40) {
             Type::BV(t.range(5, 70))
+        } else if cfg.mc_bias && bits_left >= 2 {
+            // 0 -> 3 bits, wider counters give longer paths
+            Type::BV([3u32, 2, 4, 1][t.below(4) as usize].min(bits_left))
         } else {
             Type::BV(t.range(1, bits_left.min(4)))
         };
@@ -146,7 +153,7 @@ pub fn gen_system(t: &mut Tape, cfg: &SysCfg) -> SysCase {
     // ---- states in declaration order; init may only mention earlier states, literals (and inputs)
     let mut states: Vec<(ExprRef, Option<ExprRef>)> = vec![];
     for (k, tpe) in state_types.iter().enumerate() {
-        let init = match t.weighted(&[3, 4, 3]) {
+        let init = match t.weighted(if cfg.mc_bias { &[1, 7, 2] } else { &[3, 4, 3] }) {
             0 => None,
             1 => Some(match tpe {
                 // literal / constant array
@@ -184,20 +191,46 @@ pub fn gen_system(t: &mut Tape, cfg: &SysCfg) -> SysCase {
     // ---- next functions
     for (sym, init) in states.iter() {
         let tpe = sym.get_type(&ctx);
-        let next = match t.weighted(&[1, 7, 1]) {
+        // with mc_bias the simplest (all-zero tape) choice is the counter-like update
+        let next_choice = if cfg.mc_bias { [3usize, 1, 2, 0][t.weighted(&[8, 4, 1, 1])] } else { t.weighted(&[1, 6, 1, 4]) };
+        let next = match next_choice {
             0 => None,
             1 => {
                 let steps = 1 + t.below(cfg.expr_steps);
                 Some(g.of_type(&mut ctx, t, tpe, steps))
             }
-            _ => Some(*sym), // constant state
+            2 => Some(*sym), // constant state
+            _ => match tpe {
+                // counter-like updates: long paths and large diameters
+                Type::BV(w) => {
+                    let k = if t.flag() { 1 } else { t.bits(w).iter_u64_digits().next().unwrap_or(1) | 1 };
+                    let lit = ctx.bv_lit(&Bv::from_u64(w, k & if w >= 64 { u64::MAX } else { (1u64 << w) - 1 }).to_baa());
+                    let inc = if t.flag() { ctx.add(*sym, lit) } else { ctx.sub(*sym, lit) };
+                    let bools: Vec<ExprRef> = inputs.iter().copied().filter(|i| i.get_bv_type(&ctx) == Some(1)).collect();
+                    if !bools.is_empty() && t.flag() {
+                        let en = bools[t.below(bools.len() as u32) as usize];
+                        Some(ctx.ite(en, inc, *sym))
+                    } else if t.chance(60) && w >= 2 {
+                        // saturating counter
+                        let max = ctx.bv_lit(&Bv::ones(w).to_baa());
+                        let at_max = ctx.equal(*sym, max);
+                        Some(ctx.ite(at_max, *sym, inc))
+                    } else {
+                        Some(inc)
+                    }
+                }
+                Type::Array(_) => {
+                    let steps = 1 + t.below(cfg.expr_steps);
+                    Some(g.of_type(&mut ctx, t, tpe, steps))
+                }
+            },
         };
         sys.add_state(&ctx, State { symbol: *sym, init: *init, next });
     }
     // ---- constraints (biased to be satisfiable)
-    let n_con = t.below(cfg.max_constraints + 1);
+    let n_con = if cfg.mc_bias { (t.weighted(&[5, 4, 1]) as u32).min(cfg.max_constraints) } else { t.below(cfg.max_constraints + 1) };
     for _ in 0..n_con {
-        let c = match t.weighted(&[4, 3, 3, 1]) {
+        let c = match t.weighted(if cfg.mc_bias { &[5, 4, 1, 0] } else { &[4, 3, 3, 1] }) {
             0 if !inputs.is_empty() => {
                 // in < k  (k >= 1)
                 let i = inputs[t.below(inputs.len() as u32) as usize];
@@ -225,15 +258,27 @@ pub fn gen_system(t: &mut Tape, cfg: &SysCfg) -> SysCase {
         sys.constraints.push(c);
     }
     // ---- bad states
-    let n_bad = 1 + t.below(cfg.max_bads.max(1));
+    let n_bad = if cfg.mc_bias { 1 + t.weighted(&[6, 2, 1]).min(cfg.max_bads.max(1) as usize - 1) as u32 } else { 1 + t.below(cfg.max_bads.max(1)) };
     for _ in 0..n_bad {
-        let b = match t.weighted(&[4, 5, 1]) {
+        let b = match t.weighted(if cfg.mc_bias { &[9, 3, 1] } else { &[4, 5, 1] }) {
             0 if states.iter().any(|(s, _)| s.get_type(&ctx).is_bit_vector()) => {
                 let bvs: Vec<ExprRef> =
                     states.iter().map(|(s, _)| *s).filter(|s| s.get_type(&ctx).is_bit_vector()).collect();
                 let s = bvs[t.below(bvs.len() as u32) as usize];
                 let w = s.get_bv_type(&ctx).unwrap();
-                let v = t.bits(w);
+                // a value away from the (literal) initial value: deeper counterexamples
+                let init_lit = states
+                    .iter()
+                    .find(|(x, _)| *x == s)
+                    .and_then(|(_, i)| *i)
+                    .and_then(|i| crate::refeval::lit_value(&ctx, i));
+                let v = match (cfg.mc_bias, init_lit) {
+                    (true, Some(iv)) => {
+                        let off = 1 + t.below(if w >= 5 { 30 } else { (1u32 << w) - 1 });
+                        iv.add(&Bv::from_u64(w, off as u64)).v
+                    }
+                    _ => t.bits(w),
+                };
                 let vl = ctx.bv_lit(&Bv::new(w, v).to_baa());
                 ctx.equal(s, vl)
             }
